@@ -869,3 +869,12 @@ def _async_io_copy(I, a, d):
 
 
 T.path("async_std::io::copy", "futures::io::copy", "tokio::io::copy", "futures_util::io::copy")(_async_io_copy)
+
+
+def _async_remove_dir(I, a, d):
+    p = as_sbytes(a[0])
+    return ModelFuture(lambda: wrap(I, lambda: F.op_rmdir(I, p)), "fs::remove_dir")
+
+
+T.path("async_std::fs::remove_dir")(_async_remove_dir)
+T.path("tokio::fs::remove_dir")(_async_remove_dir)
